@@ -11,6 +11,12 @@ Decided structurally:
         own arguments (a field that stores them unchanged), or no derived field is narrowed
         from the *inner* annotation in the nesting branch without the replayed fields being
         narrowed too (dims <-> dim_str yes; dtypes <-> the category class: impossible).
+  C20.5 by-value class picklers (cloudpickle serialises the *class dictionary* of dynamically
+        created classes and does not consult copyreg): every identity sentinel that can sit in
+        an annotation's class dictionary is pickled / copied *by reference* (its class defines
+        __reduce__ returning its module-level name, __copy__/__deepcopy__ returning self) --
+        a bare object() comes back as a different object and every `is` test against it fails,
+        for the copy and (in-process, where the class is re-used) for the original.
   C20.4 by-reference resolvability of the category classes (name = exported name).
 Not decided: cross-process equality of accepted sets (value level).
 """
@@ -30,6 +36,7 @@ def run(ctx: RuleContext):
     ctx.sub(check_no_sentinels, ctx)
     ctx.sub(check_determinacy, ctx)
     ctx.sub(check_by_reference, ctx)
+    ctx.sub(check_sentinels_by_reference, ctx)
 
 
 def _reducer(ctx):
@@ -118,8 +125,26 @@ def reducer_plan(ctx, red):
     raise AnalysisError(f"C20: reducer callable `{norm(fn_e)}` not recognised")
 
 
+def _sentinel_defs(mod) -> dict:
+    """Module-level identity sentinels: names bound once to `object()` or to an instance of a
+    class of the same module, and compared with `is` somewhere in the module."""
+    cands = {}
+    for n, vals in mod.assigns.items():
+        if len(vals) == 1 and isinstance(vals[0], ast.Call) and isinstance(vals[0].func, ast.Name):
+            fn = vals[0].func.id
+            if (fn == "object" and not vals[0].args) or fn in mod.classes:
+                cands[n] = vals[0]
+    used = set()
+    for x in ast.walk(mod.tree):
+        if isinstance(x, ast.Compare) and any(isinstance(o, (ast.Is, ast.IsNot)) for o in x.ops):
+            for e in [x.left] + x.comparators:
+                if isinstance(e, ast.Name) and e.id in cands:
+                    used.add(e.id)
+    return {n: v for n, v in cands.items() if n in used}
+
+
 def _sentinels(mod) -> set:
-    return {n for n, vals in mod.assigns.items() if len(vals) == 1 and isinstance(vals[0], ast.Call) and norm(vals[0].func) == "object" and not vals[0].args}
+    return set(_sentinel_defs(mod))
 
 
 def check_no_sentinels(ctx):
@@ -314,3 +339,81 @@ def check_by_reference(ctx):
     from .c03 import check_names_exported
 
     check_names_exported(ctx, "C20.4")
+
+
+def check_sentinels_by_reference(ctx):
+    m = ctx.model
+    mod = m.module("_array_types")
+    defs = _sentinel_defs(mod)
+    mac = m.func("_array_types._make_array_cached")
+    # sentinels that can reach a class dictionary: those assigned / appended / compared in the constructor
+    reach = set()
+    rt = [x.value for x in walk_scope(mac.node) if isinstance(x, ast.Return) and isinstance(x.value, ast.Tuple)]
+    ret_names = {e.id for t in rt for e in t.elts if isinstance(e, ast.Name)}
+    for sname in defs:
+        tainted = set()
+        for n in ast.walk(mac.node):
+            if isinstance(n, ast.Assign) and isinstance(n.value, ast.Name) and n.value.id == sname:
+                tainted |= {t.id for t in n.targets if isinstance(t, ast.Name)}
+            if isinstance(n, ast.Compare) and len(n.ops) == 1 and isinstance(n.ops[0], (ast.Is, ast.IsNot)):
+                l, rr = n.left, n.comparators[0]
+                if isinstance(rr, ast.Name) and rr.id == sname and isinstance(l, ast.Name):
+                    tainted.add(l.id)
+                if isinstance(l, ast.Name) and l.id == sname and isinstance(rr, ast.Name):
+                    tainted.add(rr.id)
+        changed = True
+        while changed:
+            changed = False
+            for n in ast.walk(mac.node):
+                if isinstance(n, ast.Call) and isinstance(n.func, ast.Attribute) and n.func.attr == "append" and isinstance(n.func.value, ast.Name):
+                    if any(isinstance(a, ast.Name) and a.id in tainted for a in n.args) and n.func.value.id not in tainted:
+                        tainted.add(n.func.value.id)
+                        changed = True
+                if isinstance(n, ast.Assign) and isinstance(n.value, ast.Call) and norm(n.value.func) == "tuple" and any(isinstance(a, ast.Name) and a.id in tainted for a in n.value.args):
+                    for t in n.targets:
+                        if isinstance(t, ast.Name) and t.id not in tainted:
+                            tainted.add(t.id)
+                            changed = True
+        if tainted & ret_names:
+            reach.add(sname)
+    shaped = [n for n, vals in mod.assigns.items() if any(isinstance(v, ast.Call) and norm(v.func) == "_make_dtype" and v.args and isinstance(v.args[0], ast.Name) and v.args[0].id in defs for v in vals)]
+    for v in mod.assigns.values():
+        for c in v:
+            if isinstance(c, ast.Call) and norm(c.func) == "_make_dtype" and c.args and isinstance(c.args[0], ast.Name) and c.args[0].id in defs:
+                reach.add(c.args[0].id)
+    ctx.counters["class_dict_sentinels"] = len(reach)
+    ctx.floor("C20.5", "class_dict_sentinels", 3)
+    where = (mod.relpath, mod.qualname)
+    for n in sorted(reach):
+        call = defs[n]
+        cname = call.func.id
+        if cname == "object":
+            ctx.bad("C20.5", where, call, f"`{n}` is a bare object() that is stored in annotation class dictionaries and compared with `is`: a by-value class pickler (cloudpickle) "
+                    "sends it as a fresh object, so the copy -- and, in-process, the original whose attributes are overwritten on load -- stops matching "
+                    "(`TypeError: 'object' object is not iterable` / AttributeError on isinstance)", construct=f"{n} = object()")
+            continue
+        c = mod.classes[cname]
+        red = c.methods.get("__reduce__") or c.methods.get("__reduce_ex__")
+        ok = False
+        if red is not None:
+            rets = [x for x in walk_scope(red.node) if isinstance(x, ast.Return)]
+            # returns the stored name (a string => pickled as a global reference)
+            if len(rets) == 1 and isinstance(rets[0].value, ast.Attribute) and isinstance(rets[0].value.value, ast.Name) and rets[0].value.value.id == red.params[0]:
+                attr = rets[0].value.attr
+                init = c.methods.get("__init__")
+                if init is not None and any(isinstance(a, ast.Assign) and norm(a.targets[0]) == f"{init.params[0]}.{attr}" and norm(a.value) == init.params[1] for a in walk_scope(init.node)):
+                    # and the name passed at the definition equals the module-level name
+                    if call.args and isinstance(call.args[0], ast.Constant) and call.args[0].value == n:
+                        ok = True
+        if not ok:
+            ctx.bad("C20.5", where, call, f"the sentinel `{n}` is not pickled by reference to its own module-level name (its class must define __reduce__ returning the name it was "
+                    f"created with, and that name must be '{n}')", construct=f"{n} = {norm(call)}")
+            continue
+        for dm in ("__copy__", "__deepcopy__"):
+            f_ = c.methods.get(dm)
+            if f_ is None or not any(isinstance(x, ast.Return) and norm(x.value) == f_.params[0] for x in walk_scope(f_.node)):
+                ctx.bad("C20.5", where, call, f"the sentinel class `{cname}` does not define {dm} returning self: copy/deepcopy of an annotation's fields would duplicate `{n}`",
+                        construct=f"{cname}.{dm}")
+                ok = False
+        if ok:
+            ctx.ok("C20.5", n, f"{norm(call)}: pickled, copied and deep-copied by reference")
